@@ -436,6 +436,172 @@ def keepVisit : VisitFn Val := fun _ _ _ => .keep
 def progVisit (pr : Prog) : VisitFn Val := fun p k v =>
   (evalProg pr p k v.view).toVisit Val.leaf v
 
+/-- `ItemsView(d)` / `enumerate(seq)`: the items `default_enter` hands out, with their effective keys -/
+def enumT (kd : Kind) (i : Nat) : Items → List (Key × Val)
+  | .nil => []
+  | .cons k v r => (effKey kd i k, v) :: enumT kd (i + 1) r
+
+/-! ## custom `enter` / `exit` callbacks (tree level) -/
+
+/-- an `enter` callback: `none` = `(value, False)` (do not traverse: the value is handed to visit as
+    it is), `some (new_parent, items)` = traverse `items` -/
+abbrev EnterFn := Path → Key → Val → Option (Val × List (Key × Val))
+
+/-- an `exit` callback with all five arguments: path, key, old parent, new parent, new items -/
+abbrev GExitFn := Path → Key → Val → Val → List (Key × Val) → Val
+
+structure GCfg where
+  en : EnterFn
+  vf : VisitFn Val
+  ex : GExitFn
+
+mutual
+/-- the value handed to visit for the item `(k, v)` met at path `p`: the bottom-up recursion for
+    arbitrary callbacks (with fuel: an arbitrary `enter` may unfold for ever) -/
+def gValue (c : GCfg) : Nat → Path → Key → Val → Option Val
+  | 0, _, _, _ => none
+  | n + 1, p, k, v =>
+    match c.en p k v with
+    | none => some v
+    | some (np, items) =>
+      match gItems c n (p ++ [k]) items with
+      | none => none
+      | some its => some (c.ex p k v np its)
+/-- the new items of one container: each child rebuilt, then visited, left to right -/
+def gItems (c : GCfg) : Nat → Path → List (Key × Val) → Option (List (Key × Val))
+  | 0, _, _ => none
+  | _ + 1, _, [] => some []
+  | n + 1, p, (k, v) :: r =>
+    match gValue c n p k v with
+    | none => none
+    | some v' =>
+      match gItems c n p r with
+      | none => none
+      | some rest => some (applyVisit c.vf p k v' ++ rest)
+end
+
+/-- result of `remap(root, visit, enter, exit)` as a recursion -/
+inductive GRes | typeError | ok (v : Val)
+deriving Inhabited
+
+/-- the root is entered with the empty path and key `None`, and does not extend the path -/
+def gRoot (c : GCfg) (n : Nat) (root : Val) : Option GRes :=
+  match c.en [] .none root with
+  | none => some .typeError
+  | some (np, items) =>
+    match gItems c n [] items with
+    | none => none
+    | some its => some (.ok (c.ex [] .none root np its))
+
+/-! the machine -/
+inductive GFrame
+  | item (k : Key) (v : Val)
+  | exit (k : Key) (old np : Val)
+
+structure GSt where
+  stack : List GFrame
+  path  : Path
+  nis   : List (Path × List (Key × Val))
+  value : Val
+  first : Bool          -- the next item popped is the root (`value is root`)
+  err   : Bool          -- `TypeError: expected remappable root`
+
+def gFrames (l : List (Key × Val)) : List GFrame := l.map fun kv => .item kv.1 kv.2
+
+def gstep (c : GCfg) (s : GSt) : Option GSt :=
+  if s.err then none else
+  match s.stack with
+  | [] => none
+  | .item k v :: rest =>
+    match c.en s.path k v with
+    | some (np, items) =>
+      some { s with stack := gFrames items ++ (.exit k v np :: rest),
+                    path := if s.first then s.path else s.path ++ [k],
+                    nis := (s.path, []) :: s.nis, first := false }
+    | none =>
+      match s.nis with
+      | [] => some { s with stack := rest, value := v, first := false, err := true }
+      | (pp, acc) :: nr =>
+        some { s with stack := rest, value := v, first := false,
+                      nis := (pp, acc ++ applyVisit c.vf s.path k v) :: nr }
+  | .exit k old np :: rest =>
+    match s.nis with
+    | [] => some { s with stack := rest, err := true }
+    | (p, items) :: nr =>
+      match nr with
+      | [] => some { s with stack := rest, path := p, nis := [], value := c.ex p k old np items }
+      | (pp, acc) :: nr' =>
+        some { s with stack := rest, path := p, value := c.ex p k old np items,
+                      nis := (pp, acc ++ applyVisit c.vf p k (c.ex p k old np items)) :: nr' }
+
+def grun (c : GCfg) : Nat → GSt → GSt
+  | 0, s => s
+  | n + 1, s => match gstep c s with
+    | none => s
+    | some s' => grun c n s'
+
+def ginit (root : Val) : GSt := ⟨[.item .none root], [], [], root, true, false⟩
+
+/-- `remap(root, visit, enter, exit)` run for at most `m` loop iterations; `none` = still running -/
+def gRemapIter (c : GCfg) (m : Nat) (root : Val) : Option GRes :=
+  let s := grun c m (ginit root)
+  if s.err then some .typeError
+  else if s.stack.isEmpty then some (.ok s.value) else none
+
+/-- `default_enter` as an `enter` callback: scalars (str / bytes included) are not traversed; a container
+    gives an empty container of its own class and its items (dict items / enumerated members) -/
+def defaultEnterG : EnterFn := fun _ _ v =>
+  match v with
+  | .leaf _ => none
+  | .node kd its => some (.node kd .nil, enumT kd 0 its)
+
+/-- `default_exit` as a five-argument callback: it looks at the NEW parent only -/
+def defaultExitG : GExitFn := fun p k _ np items => defaultExit p k np items
+
+def dflt (vf : VisitFn Val) : GCfg := ⟨defaultEnterG, vf, defaultExitG⟩
+
+
+/-- `len(container)`; 0 for a scalar -/
+def Val.len : Val → Nat
+  | .leaf _ => 0
+  | .node _ its => its.length
+
+/-! ### table-defined `enter` / `exit` callbacks (interpreted identically by the Python harness) -/
+
+/-- `enter` callbacks: the default; containers of one kind are not traversed; the items are handed
+    over in reverse; items with one key are pruned before the traversal; the new parent is a list
+    whatever the old one was; nothing below a given depth is traversed -/
+inductive EnterP | dflt | skipKind (kd : Kind) | rev | skipKey (a : Atom) | asList | depthLimit (n : Nat)
+deriving Repr
+
+def evalEnter (e : EnterP) : EnterFn := fun p _ v =>
+  match v with
+  | .leaf _ => none
+  | .node kd its =>
+    match e with
+    | .dflt => some (.node kd .nil, enumT kd 0 its)
+    | .skipKind kd' => if kd = kd' then none else some (.node kd .nil, enumT kd 0 its)
+    | .rev => some (.node kd .nil, (enumT kd 0 its).reverse)
+    | .skipKey a => some (.node kd .nil, (enumT kd 0 its).filter fun kv => kv.1 != a)
+    | .asList => some (.node .list .nil, enumT kd 0 its)
+    | .depthLimit n => if n ≤ p.length then none else some (.node kd .nil, enumT kd 0 its)
+
+/-- `exit` callbacks: the default; `len(new_items)`; the list of the new items' keys; `len(path)`;
+    the tuple `(key, len(old_parent), default_exit(...))`; a container of the OLD parent's class -/
+inductive ExitP | dflt | count | keys | pathLen | keyOld | oldKind
+deriving Repr
+
+def evalExit (x : ExitP) : GExitFn := fun p k old np items =>
+  match x with
+  | .dflt => defaultExit p k np items
+  | .count => .leaf (.int items.length)
+  | .keys => .node .list (ofList (renumber 0 (items.map fun kv => Val.leaf kv.1)))
+  | .pathLen => .leaf (.int p.length)
+  | .keyOld => .node .tuple (ofList (renumber 0 [.leaf k, .leaf (.int old.len), defaultExit p k np items]))
+  | .oldKind => defaultExit p k old items
+
+def progCfg (e : EnterP) (pr : Prog) (x : ExitP) : GCfg := ⟨evalEnter e, progVisit pr, evalExit x⟩
+
 /-! ## heap level -/
 
 inductive Obj | atom (a : Atom) | ref (id : Nat)
